@@ -114,6 +114,7 @@ action view appliesTo { principal: [User], resource: [User], context: { flag: Bo
             n += 1
             p = ['policy', S('p'), 'permit', ['all'], ['all'], ['all'], ['conds', ['when', e]], ['annots']]
             cases.append('(case v%d validate %s %s %s %s)' % (n, S(fixed), mode, sx.dump(p), sx.dump(fenvs)))
+            tcases_raw.append((fixed, mode, 'User', 'view', 'User', e))
     # action groups in another namespace: the group's entity type differs from the member's (F43)
     fixed2 = '''namespace NS2 { action b; action c in [b]; }
 namespace NS1 { entity U; action a in [NS2::Action::"c"] appliesTo { principal: [U], resource: [U], context: { flag: Bool } };
@@ -134,6 +135,8 @@ namespace NS1 { entity U; action a in [NS2::Action::"c"] appliesTo { principal: 
                         n += 1
                         p = ['policy', S('p'), 'permit', ['all'], ['all'], ['all'], ['conds', ['when', body]], ['annots']]
                         cases.append('(case v%d validate %s %s %s %s)' % (n, S(fixed2), mode, sx.dump(p), sx.dump(envs2)))
+                for an in ('a', 'z'):
+                    tcases_raw.append((fixed2, r.choice(['strict', 'permissive']), 'NS1::U', ('NS1::Action', an), 'NS1::U', g))
     ctx.rule = ('random schemas (2-4 entity types with parents, required/optional attributes of every type incl. nested records, sets, entity '
                 'references and the four extension types, tags; 1-3 actions with applies-to lists and context records) x policies typed against '
                 'them (access paths through required attributes, has-guarded optional attributes, arithmetic, comparisons, sets, extension calls, '
@@ -149,7 +152,7 @@ namespace NS1 { entity U; action a in [NS2::Action::"c"] appliesTo { principal: 
         inf = info_of[text]
         if not inf.startswith('(info '):
             continue
-        tcases.append('(case y%d typeof %s %s %s %s %s %s %s)' % (i, S(text), inf, mode, S(pt), sx.dump(gen.vent('Action', a)), S(rt), sx.dump(e)))
+        tcases.append('(case y%d typeof %s %s %s %s %s %s %s)' % (i, S(text), inf, mode, S(pt), sx.dump(gen.vent(*a) if isinstance(a, tuple) else gen.vent('Action', a)), S(rt), sx.dump(e)))
     go_t = lib.run_go(tcases, 'typeof', ctx.workdir, timeout_ms=30000)
     mo_t = lib.run_model(tcases, 'typeof', ctx.workdir)
     tm = unk = okc = 0
